@@ -1,6 +1,6 @@
 use crate::traits::codec::{MessageDecoder, MessageEncoder};
 use anyhow::Result;
-use bytes::{Buf, Bytes, BytesMut};
+use bytes::{Bytes, BytesMut};
 use serde::{de::DeserializeOwned, Serialize};
 use std::marker::PhantomData;
 
@@ -47,7 +47,9 @@ impl<Item: Serialize> MessageEncoder<Item> for BincodeCodec<Item> {
 /// Returns [Err] if the [BytesMut](bytes::BytesMut) payload fails to deserialize into `Item`.
 impl<Item: DeserializeOwned> MessageDecoder<Item> for BincodeCodec<Item> {
     fn decode(&self, buffer: &mut BytesMut) -> Result<Item> {
-        Ok(bincode::deserialize_from(buffer.reader())?)
+        // Deserialize from the slice rather than through a reader, so that a length prefix is checked
+        // against the bytes actually present before anything is allocated for it
+        Ok(bincode::deserialize(&buffer[..])?)
     }
 }
 
